@@ -23,6 +23,20 @@ shrunk failing input):
   6 TextIndex.sort: empty result no longer returned unchanged
   7 CosineIndex.query_weight sums idf instead of idf^2
   8 AndNode.executeQuery no longer subtracts the NOT results
+K1 / B are the documented "BM25 free parameters" (class attributes of OkapiIndex): 30% of the Okapi corpora run on an
+index whose K1 and/or B is overridden on a subclass, a sub-subclass, the instance, or the instance of a subclass that
+says something else (K1 in {0.5, 2.0, 3.75, 1.2}, B in {0, 0.25, 0.5, 0.75, 1}) - handed to TextIndex(index=...), with
+the pure-Python scoring loop (`cfg impl textpy`); the model takes `cfg k1` / `cfg b` (Lean: `Score.Bm25`; the bound
+theorems hold for 0 <= k1 <= kq, 0 <= b <= 1).  Seeded C20_E (query_weight reads a constant computed in the class
+body) was missed before and is caught now; two more of the class, VIOLATION on quick seed 0 here and in C08:
+  9  the Python loop reads `OkapiIndex.B` instead of `self.B`
+  10 query_weight reads `type(self).K1` (an instance-level override is ignored)
+`sort` also gets results of >= 32 x limit ids (limit 1-5, 1-5 distinct scores: the limit-th place is shared), the
+class of seeded C20_F (n-best fast path without the final cut; was caught through a negative limit only); one more:
+  11 n-best fast path `heapq.nlargest(limit, result.items(), key=weight)` - ties come out by ascending docid
+NOT generated, because it fails on the unchanged tree (reported): the COMPILED loop keeps the constants of okascore.c
+whatever K1 / B say ("okascore hardcodes the values of K, B1"), query_weight reads self.K1 - with K1 < 1.2 on a
+subclass scores exceed 1 (K1 = 0.5, docs 'apple'*30 / 'pear plum' / 'apple pear': apply('apple') -> 1.346, 1.005).
 Repeated one-word queries with DICT_CUTOFF 2 / 3 / default (see C08): seeded change C08_F (setops._trivial scales in
 place) and C08's mutations 10 (single-operand intersection, reached through a word+stop-word phrase) and 11 (single-match
 glob) give VIOLATION here on quick seed 0; 10 and 11 were run against the generator as it was before and were missed.
@@ -38,7 +52,7 @@ BUILD_C = True
 AUDIT_IMPORTS = ["HypatiaProofs.Properties.C20", "HypatiaProofs.Properties.C20Keys"]
 THEOREMS = ["Hyp.C20." + t for t in (
     "c20_apply_normalised", "c20_apply_passthrough", "c20_tree_score", "c20_okapi_raw_bound",
-    "c20_okapi_bound", "c20_cosine_raw_bound", "c20_cosine_bound", "c20_cosine_repeated_term", "c20_sort_weighted", "c20_sort_limit", "c20_sort_empty",
+    "c20_okapi_bound", "c20_okapi_bound_default", "c20_cosine_raw_bound", "c20_cosine_bound", "c20_cosine_repeated_term", "c20_sort_weighted", "c20_sort_limit", "c20_sort_empty",
     "c20_sort_unweighted",
     # composed with C03 (Properties/C20Keys.lean): the scored result has the keys of the key-set model
     "c20_scored_keys_are_c03_result", "c20_scored_documents_satisfy_query")]
@@ -417,6 +431,10 @@ def impl_run(hyp, case):
                 ti.index_doc(c[1], base.Doc(" ".join(map(str, c[2:]))))
                 outs.append("ok")
             elif op == "reindex":
+                if c[1] not in inner._docweight:
+                    # TextIndex.reindex_doc IS index_doc: never generated for an unknown id; a shrinking step that
+                    # drops the earlier index command must not turn the case into a different one
+                    raise core.Infra("reindex of an unknown docid through TextIndex is not a generated case")
                 ti.reindex_doc(c[1], base.Doc(" ".join(map(str, c[2:]))))
                 outs.append("ok")
             elif op == "unindex":
@@ -581,6 +599,12 @@ RULE = ("corpora as in C08 (histories of index/reindex/unindex/reset through Tex
         "word+stop-word phrase) on the most frequent word through apply / applyb / applysort before and after "
         "other reads of the unchanged corpus (measured quick seed 0, of 912 corpora: 587 repeat on a dict posting, "
         "139 on a stored IFBTree posting - 66 cosine; by form atom 111, glob 54, phrase 28 on stored trees). "
+        "30% of the Okapi corpora: K1 / B overridden on a subclass / sub-subclass / instance / instance of a "
+        "subclass handed to TextIndex(index=...), pure-Python loop, cfg k1 / cfg b to the model (measured quick "
+        "seed 0: 154 of 492 Okapi corpora - 31 / 36 / 42 / 45; 584 scored apply results on them, 432 with K1 "
+        "overridden, 96 with K1 > 1.2 and a score above 2.2/(1+K1)); 30% of the hand-made sort calls have "
+        ">= 32 x limit ids (limit 1-5, 32-64 x limit ids, 1-5 distinct scores; measured 223 of 728 sort calls, "
+        "all 223 with a tie at the cut). "
         "non-trivial = a scored apply with >= 2 documents and an applyb inside the hypotheses")
 LEVEL_TEXT = ("Lean 4 theorems over the reals: TextIndex.apply = raw score / query_weight (raw if the weight is "
               "0) for every tree; for every glob-free tree, every history and every lexicon each raw score is a "
